@@ -11,7 +11,8 @@ RULE = ("operation histories of length <= 40 from the empty list: append, insert
         "Concatenation operands from every source (variable, group, container slot, record field, identity / builder / getter "
         "function results) followed by fresh allocations by every route: the operands stay what they were. "
         "Non-trivial: the history has an insert or remove at an interior position."
-        ' Index-boundary family (negative fractions, minus zero, NaN, infinity, huge) for read, write, insert-at, remove-at.')
+        ' Index-boundary family (negative fractions, minus zero, NaN, infinity, huge) for read, write, insert-at, remove-at.'
+        ' Shared name-collision family (props/collisions.py): 24 scenarios in which one name is bound more than once, x 2 layouts.')
 ASSUMPTIONS = []
 default_compare = lambda m, i: C.compare_run(m, i)
 
@@ -101,4 +102,10 @@ def cases(rng, tier, stats):
     ib = index_boundary_family(tier)
     out += ib
     stats["index_boundary"] = len(ib)
+    # one name in two roles (props/collisions.py): shadowed functions, parameters named like globals / built-ins / their own function,
+    # bare conditions, indexed and plain writes, re-declarations — every use of a name resolves to its innermost binding
+    from props import collisions
+    nc_ = collisions.family()
+    out += nc_
+    stats["name_collision_programs"] = len(nc_)
     return out
